@@ -36,7 +36,14 @@ LEVEL_TEXT = ("Proof: on every lattice (any spacing, anchor, extent, holes, mask
               "restrict the partition to the kept cells (same half-open boxes, old index = keptIdx of the new one), the four children of "
               "increase_grid_resolution to partition their parent cell, a region rebuilt from (origins, dh, mask) to be the same partition, and "
               "CSEPCatalog.filter_spatial — as a state machine over region argument, bound region, in_place, update_stats — to keep exactly the events the "
-              "partition puts in a cell, idempotently, after which index lookup and per-cell counts cannot raise.")
+              "partition puts in a cell, idempotently, after which index lookup and per-cell counts cannot raise. Round 4: the number of decimals "
+              "`cleaner_range` reads from repr() and the two repr values `from_origins` without dh subtracts are no longer inputs: they are computed by the model "
+              "(ReprDec.numDecimals / DecimalText.reprValue, proved to read back), and the end-to-end construction theorem is re-proved for the model without "
+              "any outside input, for the lattice Python PRINTS (repr_lattice_construction); global_region(dh) is modelled (two cleaner_range calls, "
+              "itertools.product, compute_vertices) and global_region(0.1) is proved cell by cell for all 6 480 000 cells (global_region_construction); "
+              "and C01 o C02: for every region on regular float64 edge arrays the cell the CODE computes with the float bin1d_vec on both axes IS the "
+              "partition cell cellOf for every point outside the round-off band of its axes (float_lookup_exact), inside the band the float column is the "
+              "exact one or its upper neighbour, never further and never below (float_col_adjacent).")
 LEVEL_NOTE = ("The 1-D lookup is modelled by its exact meaning (last edge <= x, closed top); the float formula of bin1d_vec is "
               "the subject of C02. Inside the documented round-off band immediately below a boundary "
               "(eps*(6|x| + (2m+6)|a0|) + 2^-1022, eps = 2^-52) either adjacent cell is accepted, outside the band the answer must "
@@ -44,7 +51,11 @@ LEVEL_NOTE = ("The 1-D lookup is modelled by its exact meaning (last edge <= x, 
               "the lattice coordinates; the Soft64 op c01_build computes it from the origins like the code does and both are "
               "compared with bbox_mask / idx_map / get_cartesian. midpoint_hash_correct assumes the edge arrays lie within 2^-41 "
               "of the lattice (NearLattice; proved for decimal inputs by C02's cleanerRange_exact, checked by the kernel on the "
-              "shipped arrays, validated bit for bit on every run); the number of decimals repr() shows is a model input. "
+              "shipped arrays, validated bit for bit on every run); the number of decimals repr() shows is computed by the model since round 4 "
+              "(compared with the implementation's own nested helper and with Decimal(repr(x)) on every run). Spacings that are not short decimals "
+              "(1/30, 1/35, the noise of a float difference) take the fallback path of cleaner_range: modelled bit-exactly and generated, judged by the "
+              "partition oracle with the lattice 'to rounding' (1e-12); no theorem covers that path, and its displacement class is a genuine-defect "
+              "candidate that is observed, not enforced (AWAITING_DECISION_BUILD). "
               "Cell areas: closed form, additivity and positivity are proved over a field / the reals; the float evaluation "
               "(libm cosine) is compared to 1e-9 with a cancellation-aware absolute term.")
 DESIGN_REF = "DESIGN.md §4 C01"
@@ -66,15 +77,26 @@ THEOREMS = ["Region.col_eq_iff", "Region.row_eq_iff", "Region.col_eq_floor", "Re
             "Region.regionEq_iff", "Region.rebuilt_from_origins_dh_mask", "Region.dict_roundtrip_same_partition",
             "Region.eq_same_partition", "Region.filter_spatial_events", "Region.filter_spatial_argument_wins",
             "Region.filter_spatial_depends_only_on", "Region.filter_spatial_no_region",
-            "Region.filter_spatial_idem", "Region.filter_spatial_stats", "Region.filter_then_lookup_total"]
+            "Region.filter_spatial_idem", "Region.filter_spatial_stats", "Region.filter_then_lookup_total",
+            # Properties/C01_Repr.lean (round 4): num_decimals / repr inside the model; global_region
+            "Region.repr_lattice_construction", "Region.repr_lattice_integers", "Region.inferred_spacing_repr",
+            "Region.global_coordinates", "Region.global_region_construction", "Region.product_decimalGrid", "Region.mem_productN",
+            # Properties/C01_Float.lean (round 4): C01 o C02 — the FLOAT lookups give the exact partition cell outside the band
+            "Region.cnt_eq_countP", "Region.topF_eq_top64", "Region.binE_eq_ideal", "Region.allowed_closed_shape",
+            "Region.float_col_exact", "Region.float_col_adjacent", "Region.float_lookup_exact", "Region.built_float_lookup_exact",
+            # Properties/C01_Global.lean (round 4): global_region(dh) for every decimal spacing dividing 180 degrees
+            "Region.global_region_construction_gen", "Region.global_region_1", "Region.global_region_05", "Region.global_region_025",
+            "Region.global_region_2"]
 TRUSTED = ["Lean 4.33 kernel", "axioms: propext, Classical.choice, Quot.sound at most",
-           "the float formula of csep.utils.calc.bin1d_vec agrees with the exact lookup outside the round-off band "
-           "(property C02; here checked point by point by the correspondence)",
+           "(no longer trusted since round 4: that the float formula of bin1d_vec agrees with the exact lookup outside the round-off band is "
+           "Region.float_col_exact / float_lookup_exact, under C02's decidable hypotheses RegularF64Grid / PointOK, which the driver evaluates on "
+           "every float64 case of C02)",
            "bounding-box position (i, j) of each polygon for the exact-layer op computed by the harness from the generating "
            "lattice (cross-checked against region.idx_map / bbox_mask and against the Soft64 construction model c01_build)",
            "Soft64.fl64 is IEEE-754 binary64 round-to-nearest-even and Python/numpy + - * / round are that arithmetic "
            "(validated bit for bit on every region: bitexact_agreement)",
-           "num_decimals of repr(float) (input of the cleaner_range model, computed by the harness with the code's rule)",
+           "DecimalText.reprValue is the value of Python's repr(float) (shortest round-trip decimal, nearest to x among the shortest; proved to read "
+           "back; compared with Decimal(repr(x)) on every run by C02's check_numdec) — num_decimals itself is computed by the model since round 4",
            "edge tables of the shipped regions in Proofs/Bin1dTables*.lean (compared with the real regions by C02's harness)",
            "libm cosine (cell areas compared numerically)",
            "Soft64 binary64 addition/subtraction for the upper side xs[-1] + (xs[1] - xs[0])",
@@ -86,7 +108,10 @@ RULE = ("lattices: spacing from {0.05,0.1,0.25,0.5,1,2} or a random 1-3 digit de
         "(anchor + k*dh, a few ulps off), constructors from_origins with dh, from_origins without dh (spacing inferred from the "
         "first two, adjacent, origins) and CartesianGrid2D(polygons, dh, mask), shapes 1x1, 1xn, nx1, small, medium, holes (random, rectangular, whole "
         "column/row), duplicates, mask flags, shuffled / row-major / column-major polygon order, both constructors; shipped "
-        "regions NZ, NZ-collection, Italy-collection, California-collection, global(1, 0.5). Points: every cell corner, edge "
+        "regions NZ, NZ-collection, Italy-collection, California-collection, global(1, 0.5); 12 % of the lattices have a spacing that is not a short "
+        "decimal (1/3 ... 1/70, 0.1+0.2, 16-digit decimals: fallback path of cleaner_range), anchored at a multiple of the step or at a decimal fine enough "
+        "for it (the displaced class is generated separately and only counted); global_region(dh) coordinates and edge arrays for dh = 0.1, 1 and one of "
+        "0.25 / 0.5 / 2 against the model and the decimal grid. Points: every cell corner, edge "
         "midpoint and centre, +-1..4 ulps around every edge coordinate, 1.5x and 3x the band below each edge, hole centres, "
         "the four outsides, corners outside, far outside. A case is one (region, point); non-trivial when the point lies on "
         "or within 4 ulps / 3 bands of a cell boundary, in a hole, or outside; distinct by (region id, lon, lat). Two points of every "
@@ -156,7 +181,8 @@ def build_region(spec):
             if abs(xs[i] - lon) > 4 * math.ulp(lon) or abs(ys[j] - lat) > 4 * math.ulp(lat):
                 return region, None, None
             cells.append((i, j))
-        flags = [1] * len(cells) if region.poly_mask is None else [1 if m == 1 else 0 for m in region.poly_mask]
+        pm = getattr(region, "poly_mask", None)      # shipped regions carry no per-cell mask
+        flags = [1] * len(cells) if pm is None else [1 if m == 1 else 0 for m in pm]
         return region, cells, flags
     origins = lattice_origins(spec)
     dhf = float(Decimal(spec["dh"]))
@@ -231,21 +257,51 @@ class Oracle:
     def __init__(self, region, cells, flags):
         self.ax = Axis(region.xs, region.dh)
         self.ay = Axis(region.ys, region.dh)
-        self.last, self.active = {}, set()
+        self.last, self.active, self.listed = {}, set(), {}
         for k, (c, f) in enumerate(zip(cells, flags)):
             self.last[c] = k
+            self.listed.setdefault(c, []).append((k, f))
             if f == 1:
                 self.active.add(c)
 
     def at(self, i, j):
+        """the answer at a lattice position (for a position listed once: THE answer; listed several times: the code's choice,
+        last polygon listed, active if one of them is valid)"""
         if i is None or j is None or (i, j) not in self.active:
             return "o"
         return self.last[(i, j)]
 
+    def at_set(self, i, j):
+        """every answer the PROPERTY leaves open at a position. The property speaks of 'any subset of a lattice': a position
+        listed ONCE has one answer. The same position listed several times is outside that wording — which of the polygons
+        (and, when one of them is flagged out, whether the position is active) is a choice of the implementation: any of them is
+        accepted, so that another construction order (first instead of last writer) is not reported."""
+        a = self.at(i, j)
+        l = self.listed.get((i, j), []) if i is not None and j is not None else []
+        if len(l) <= 1:
+            return {a}
+        if all(f != 1 for _, f in l):
+            return {"o"}
+        s = {a} | {k for k, _ in l}
+        if any(f != 1 for _, f in l):
+            s.add("o")
+        return s
+
+    def tolerated(self, lon, lat):
+        """answers a CORRESPONDENCE difference is not reported for: what the property allows, plus — on a single column / row — the
+        answers of the known finding D4 (open upper side), which the model reproduces and the direct oracle reports by signature"""
+        s = {str(a) for a in self.allowed(lon, lat)[0]}
+        fx, fy = Fraction(lon), Fraction(lat)
+        if (self.ax.n == 1 and fx >= self.ax.top) or (self.ay.n == 1 and fy >= self.ay.top):
+            sx = {0} if (self.ax.n == 1 and fx >= self.ax.top) else self.ax.allowed(lon)[0]
+            sy = {0} if (self.ay.n == 1 and fy >= self.ay.top) else self.ay.allowed(lat)[0]
+            s |= {str(a) for a in set().union(*[self.at_set(i, j) for i in sx for j in sy])}
+        return s
+
     def allowed(self, lon, lat):
         sx, ex, bx = self.ax.allowed(lon)
         sy, ey, by = self.ay.allowed(lat)
-        return {self.at(i, j) for i in sx for j in sy}, self.at(ex, ey), (bx or by)
+        return set().union(*[self.at_set(i, j) for i in sx for j in sy]), self.at(ex, ey), (bx or by)
 
 
 # ----------------------------------------------------------------------------------------------- points
@@ -451,6 +507,30 @@ def region_key(spec):
 
 def check_region(run, drv, pending, spec, pts=None, rng=None, budget=1500, arrays=True, ncat=4, tag="", build=True, ops=True,
                  ops_seed=None, ops_only=None):
+    """guard: a value RETURNED by the implementation that the harness cannot use (an index out of range, an ill-typed or ill-shaped
+    answer) is a failing case of the region it came from, never a harness crash (RuntimeError = harness self-check stays a crash)"""
+    try:
+        return _check_region(run, drv, pending, spec, pts=pts, rng=rng, budget=budget, arrays=arrays, ncat=ncat, tag=tag, build=build,
+                             ops=ops, ops_seed=ops_seed, ops_only=ops_only)
+    except (RuntimeError, KeyboardInterrupt, MemoryError):
+        raise
+    except Exception as e:
+        import traceback
+        fr = traceback.extract_tb(e.__traceback__)
+        here = [f for f in fr if os.path.basename(f.filename) in ("c01.py", "c01_ops.py")]
+        inner = os.path.realpath(fr[-1].filename) if fr else ""
+        from .core import REPO
+        if inner.startswith(os.path.realpath(REPO) + os.sep):
+            raise           # raised INSIDE pyCSEP: core.py reports it (kind impl-exception)
+        where = f"{os.path.basename(here[-1].filename)}:{here[-1].lineno}" if here else "?"
+        base = dict(region=spec if spec["kind"] == "shipped" or len(spec.get("cells", [])) <= 700 else dict(spec), tag=tag)
+        run.oracle_failure(dict(base, points=[[repr(p[0]), repr(p[1])] for p in (pts or [])[:20]], what="unusable-answer"),
+                           f"the implementation returned a value the check could not use ({type(e).__name__}: {str(e)[:160]} at {where}): "
+                           f"an out-of-range / ill-typed / ill-shaped answer")
+
+
+def _check_region(run, drv, pending, spec, pts=None, rng=None, budget=1500, arrays=True, ncat=4, tag="", build=True, ops=True,
+                  ops_seed=None, ops_only=None):
     try:
         region, cells, flags = build_region(spec)
     except Exception as e:
@@ -497,10 +577,12 @@ def check_region(run, drv, pending, spec, pts=None, rng=None, budget=1500, array
     off = 0
     for k, ((i, j), poly) in enumerate(zip(cells, region.polygons)):
         same = i < nx and j < ny and float(region.xs[i]) == float(poly.origin[0]) and float(region.ys[j]) == float(poly.origin[1])
-        loose = spec["kind"] == "shipped" or spec.get("origins") == "float"
+        loose = spec["kind"] == "shipped" or spec.get("origins") == "float" or spec.get("noisy")
+        # a spacing that is not a short decimal: the edges are the lattice to rounding (1e-12 of the largest coordinate)
+        ulps = 4500 if spec.get("noisy") else 4
         if not same and loose and i < nx and j < ny and \
-                abs(float(region.xs[i]) - float(poly.origin[0])) <= 4 * math.ulp(max(abs(float(region.xs[0])), abs(float(region.xs[-1])))) and \
-                abs(float(region.ys[j]) - float(poly.origin[1])) <= 4 * math.ulp(max(abs(float(region.ys[0])), abs(float(region.ys[-1])))):
+                abs(float(region.xs[i]) - float(poly.origin[0])) <= ulps * math.ulp(max(abs(float(region.xs[0])), abs(float(region.xs[-1])))) and \
+                abs(float(region.ys[j]) - float(poly.origin[1])) <= ulps * math.ulp(max(abs(float(region.ys[0])), abs(float(region.ys[-1])))):
             off += 1
         elif not same:
             run.oracle_failure(dict(base, points=[], polygon=k),
@@ -525,6 +607,14 @@ def check_region(run, drv, pending, spec, pts=None, rng=None, budget=1500, array
         return
     for k, what in problems:
         run.oracle_failure(dict(base, points=[[repr(pts[k][0]), repr(pts[k][1])]]), what)
+    npoly = len(region.polygons)
+    unusable = [k for k, a in enumerate(ans) if a != "o" and not (isinstance(a, int) and 0 <= a < npoly)]
+    if unusable or len(ans) != len(pts) or len(masked) != len(pts):
+        k = unusable[0] if unusable else 0
+        run.oracle_failure(dict(base, points=[[repr(pts[k][0]), repr(pts[k][1])]] if pts else []),
+                           f"get_index_of / get_masked returned {ans[k]!r} for the point {pts[k]!r}: not one of the {npoly} polygon numbers "
+                           f"({len(ans)} answers, {len(masked)} mask entries for {len(pts)} points)" if pts else "answers for no points")
+        return
     exact_only = []
     for k, (p, a) in enumerate(zip(pts, ans)):
         allowed, exact, inband = orc.allowed(p[0], p[1])
@@ -545,10 +635,26 @@ def check_region(run, drv, pending, spec, pts=None, rng=None, budget=1500, array
                     # would the answer be allowed if the single column / row were open-ended? only then it is D4
                     sx = {0} if (nx == 1 and fx >= orc.ax.top) else orc.ax.allowed(p[0])[0]
                     sy = {0} if (ny == 1 and fy >= orc.ay.top) else orc.ay.allowed(p[1])[0]
-                    if a in {orc.at(i, j) for i in sx for j in sy}:
+                    if a in set().union(*[orc.at_set(i, j) for i in sx for j in sy]):
                         sig = D4
             run.count("known-D4" if sig else "ORACLE-FAIL")
             run.oracle_failure(case, detail, signature=sig)
+    # END TO END through the model (round 4): the Lean side builds the region from the ORIGINS alone (num_decimals, cleaner_range,
+    # midpoint hash, mask loop: `ReprDec.fromOriginsAuto`) and answers on the region it built — no bounding-box positions, no edge
+    # arrays, no decimals from the harness. Compared when the model's edge arrays are the implementation's bit for bit.
+    if build and len(region.polygons) <= 3000 and pts:
+        org = numpy.asarray(region.origins(), dtype=float)
+        near_ids = [k for k, p in enumerate(pts) if orc.allowed(p[0], p[1])[2] or ans[k] == "o" or _near_boundary(orc, p)]
+        rest = [k for k in range(len(pts)) if k not in set(near_ids)]
+        pick = (near_ids if len(near_ids) <= 90 else (rng.sample(near_ids, 90) if rng else near_ids[:90])) + \
+               (rest if len(rest) <= 30 else (rng.sample(rest, 30) if rng else rest[:30]))
+        fl = "none" if spec.get("mask") is None else ",".join("1" if m == 1 else "0" for m in spec["mask"])
+        dharg = "none:auto" if spec.get("ctor") == "from_origins_nodh" else frac(float(region.dh))
+        q = drv.ask(" ".join(["c01_lookup", ",".join(frac(v) for v in org[:, 0]), ",".join(frac(v) for v in org[:, 1]), dharg, fl,
+                              ",".join(frac(pts[k][0]) for k in pick), ",".join(frac(pts[k][1]) for k in pick)]))
+        pending.append(dict(kind="lookup", q=q, base=base, pts=[pts[k] for k in pick], ans=[ans[k] for k in pick],
+                            oallowed=[orc.tolerated(pts[k][0], pts[k][1]) for k in pick],
+                            xs=[Fraction(float(v)) for v in region.xs], ys=[Fraction(float(v)) for v in region.ys]))
     # a coordinate exactly on a cell boundary belongs to the cell that boundary opens: every polygon's own origin
     # must be attributed to that polygon (the last one listed there) when its position is active, else be outside
     olon = numpy.array([float(p.origin[0]) for p in region.polygons])
@@ -565,6 +671,17 @@ def check_region(run, drv, pending, spec, pts=None, rng=None, budget=1500, array
             ogot = None
     run.case(None, None)
     run.count("own-origins")
+    if ogot is not None and ogot != oexp and spec.get("noisy"):
+        # a spacing that is not a short decimal: the edges are the lattice to rounding only, so an origin may lie a few ulps
+        # BELOW the edge it should open; the property's band rule then allows the neighbour too (judged like any point)
+        for k in range(len(cells)):
+            if ogot[k] != oexp[k]:
+                al = {orc.at(i, j) for i in orc.ax.allowed(float(olon[k]))[0] for j in orc.ay.allowed(float(olat[k]))[0]}
+                if ogot[k] in al:
+                    run.count("in-band: own origin of a noisy-spacing lattice attributed to the neighbour below")
+                    oexp[k] = ogot[k]
+    if ogot is not None:       # a lattice position listed several times: any of its polygons (see Oracle.at_set)
+        oexp = [g if g in orc.at_set(*c) else e for g, e, c in zip(ogot, oexp, cells)]
     if ogot != oexp:
         k = next((k for k in range(len(cells)) if ogot is None or ogot[k] != oexp[k]), 0)
         run.oracle_failure(dict(base, points=[[repr(float(olon[k])), repr(float(olat[k]))]]),
@@ -633,7 +750,9 @@ def check_region(run, drv, pending, spec, pts=None, rng=None, budget=1500, array
                 exp = orc.at(i, j)
                 got = cart[j][i]
                 m = int(region.bbox_mask[j, i])
-                if (exp == "o") != (got == "n") or (exp != "o" and str(exp) != got) or (m == 1) != (exp == "o"):
+                S = orc.at_set(i, j)
+                okpos = (got == "n" and m == 1 and "o" in S) or (got != "n" and m == 0 and int(got) in S)
+                if not okpos:
                     bad = (i, j, exp, got, m)
         run.case(None, None)
         run.count("arrays")
@@ -649,8 +768,13 @@ def check_region(run, drv, pending, spec, pts=None, rng=None, budget=1500, array
         ";".join((",".join(str(k) for k in ids) if ids else "-") for ids, _, _ in cat_impl) if cat_impl else "-",
         "1" if arrays else "0"])
     q = drv.ask(line)
+    # the oracle's own verdict per point (the PROPERTY's answer set and exact answer): a correspondence difference on which the
+    # implementation's answer is property-correct is not reported (the model reproduces the code as it is, known finding D4 —
+    # the open upper side of a single row / column — included; a tree that repairs it must stay green)
+    oal = [orc.allowed(p[0], p[1]) for p in pts]
     pending.append(dict(q=q, base=base, pts=pts, ans=ans, masked=masked, cart=cart, cats=cat_impl,
-                        exact_only=set(exact_only), ncell=len(region.polygons)))
+                        exact_only=set(exact_only), ncell=len(region.polygons), dups=len(set(cells)) != len(cells),
+                        oallowed=[orc.tolerated(p[0], p[1]) for p in pts], oexact=[t[1] for t in oal]))
 
 
 def _near_boundary(orc, p):
@@ -673,6 +797,25 @@ def flush(run, drv, pending):
         if rec.get("kind") == "area":
             flush_area(run, rec, out[rec["q"]])
             continue
+        if rec.get("kind") == "lookup":
+            toks = out[rec["q"]].split(" ")
+            if len(toks) != 3:
+                run.mismatch(dict(rec["base"], points=[], what="lookup-e2e"), "c01_lookup", out[rec["q"]][:200])
+                continue
+            F = lambda s: [] if s == "-" else [Fraction(v) for v in s.split(",")]
+            if F(toks[0]) != rec["xs"] or F(toks[1]) != rec["ys"]:
+                run.count("end-to-end lookup skipped: the model's edge arrays are not the implementation's bit for bit")
+                continue
+            al = toks[2].split(";")
+            run.count("end-to-end lookups (region built by the model from the origins alone)", len(rec["pts"]))
+            for p, a, s, oa in zip(rec["pts"], rec["ans"], al, rec["oallowed"]):
+                run.evaluations += 1
+                if str(a) not in s.split("|"):
+                    if str(a) in oa:
+                        run.count("correspondence difference with a property-correct answer (not reported)")
+                        continue
+                    run.mismatch(dict(rec["base"], points=[[repr(p[0]), repr(p[1])]], what="lookup-e2e"), str(a), s)
+            continue
         if str(rec.get("kind", "")).startswith("ops-"):
             c01_ops.flush_ops(run, rec, out[rec["q"]])
             continue
@@ -690,11 +833,17 @@ def flush(run, drv, pending):
             continue
         for k, (p, a, s) in enumerate(zip(pts, ans, al)):
             if str(a) not in s.split("|"):
+                if str(a) in rec["oallowed"][k]:
+                    run.count("correspondence difference with a property-correct answer (not reported)")
+                    continue
                 run.mismatch(dict(base, points=[[repr(p[0]), repr(p[1])]]), str(a), s)
         # arrays
         if rec["cart"] is not None:
             cm = [r.split(",") for r in cart_m.split(";")]
-            if cm != rec["cart"]:
+            if cm != rec["cart"] and rec.get("dups"):
+                # a lattice position listed several times: which of its polygons get_cartesian shows is the implementation's choice
+                run.count("correspondence difference with a property-correct answer (not reported)")
+            elif cm != rec["cart"]:
                 run.mismatch(dict(base, points=[], what="get_cartesian"), str(rec["cart"])[:300], str(cm)[:300])
         # catalogs: exact comparison whenever no event of the catalog lies in a band
         if rec["cats"]:
@@ -712,6 +861,11 @@ def flush(run, drv, pending):
                 i_gm = ["1" if ans[k] == "o" else "0" for k in ids]
                 m_gm = [] if f["gm"] == "-" else f["gm"].split(",")
                 if m_sc != sc or m_fs != i_fs or m_gi != i_gi or m_gm != i_gm:
+                    # every per-point answer of the implementation is one the PROPERTY allows (oracle), and the catalog results were
+                    # already held against those answers by the direct oracle (API agreement in check_region): property-correct
+                    if all(str(ans[k]) in rec["oallowed"][k] for k in ids):
+                        run.count("correspondence difference with a property-correct answer (not reported)")
+                        continue
                     run.mismatch(dict(base, points=[[repr(pts[k][0]), repr(pts[k][1])] for k in ids], catalog=True),
                                  dict(sc=str(sc)[:200], fs=str(i_fs)[:200], gi=str(i_gi)[:200]), s[:600])
     pending.clear()
@@ -746,7 +900,7 @@ def check_build(run, drv, pending, spec, base, region, cells, flags, orc, rng):
     nx, ny = len(region.xs), len(region.ys)
     dh = region.dh
     dhf = float(dh)
-    loose = spec["kind"] == "shipped" or spec.get("origins") == "float"
+    loose = spec["kind"] == "shipped" or spec.get("origins") == "float" or spec.get("noisy")
     try:
         pts4 = numpy.array([numpy.asarray(p.points, dtype=float) for p in region.polygons])   # n x 4 x 2
         org = numpy.asarray(region.origins(), dtype=float)
@@ -805,6 +959,8 @@ def check_build(run, drv, pending, spec, base, region, cells, flags, orc, rng):
             mgot = None
     run.case(None, None)
     run.count("own-midpoints")
+    if mgot is not None:
+        mexp = [g if g in orc.at_set(*c) else e for g, e, c in zip(mgot, mexp, cells)]
     if mgot != mexp:
         k = next((k for k in range(n) if mgot is None or mgot[k] != mexp[k]), 0)
         run.oracle_failure(dict(base, points=[[repr(float(mids[k, 0])), repr(float(mids[k, 1]))]]),
@@ -826,11 +982,25 @@ def check_build(run, drv, pending, spec, base, region, cells, flags, orc, rng):
     lexp = "IndexError" if any(not (-n <= k < n) for k in loc) else [k % n for k in loc]
     run.case(None, None)
     run.count("get_location_of")
+    loc_quirk = False
+    if locres != lexp and isinstance(locres, str) and any(k < 0 or k >= n for k in loc):
+        # an index that is no polygon number (negative: Python's from-the-end convention; >= n): the property fixes nothing —
+        # wrapping, IndexError or any other rejection is accepted; the valid indices are then checked on their own
+        run.count("get_location_of: an index that is no polygon number was rejected / handled differently (accepted)")
+        loc_quirk = True
+        vloc = [k for k in loc if 0 <= k < n]
+        try:
+            got = region.get_location_of(numpy.array(vloc, dtype=numpy.int64))
+            if any(region.polygons[k] is not g for k, g in zip(vloc, got)):
+                run.oracle_failure(dict(base, points=[], what="get_location_of", indices=vloc), f"get_location_of({vloc}) does not return those polygons")
+        except Exception as e:
+            run.oracle_failure(dict(base, points=[], what="get_location_of", indices=vloc), f"get_location_of({vloc}) raised {type(e).__name__}: {e}")
+        locres = lexp
     if locres != lexp:
         run.oracle_failure(dict(base, points=[], what="get_location_of", indices=loc),
                            f"get_location_of({loc}) gave polygons {locres!r}, expected {lexp!r}")
     # to_dict / from_dict: the rebuilt region is the same partition; magnitudes handed to from_dict are bound
-    if spec["kind"] != "shipped" and region.poly_mask is None and n <= 400:
+    if spec["kind"] != "shipped" and spec.get("mask") is None and n <= 400:
         check_dict(run, base, region)
     # cell areas
     if n <= 3000 or spec["kind"] == "shipped":
@@ -856,14 +1026,14 @@ def check_build(run, drv, pending, spec, base, region, cells, flags, orc, rng):
     hx = bin1d_vec(mids[:, 0], region.xs)
     hy = bin1d_vec(mids[:, 1], region.ys)
     arrays = nx * ny * n <= 30_000_000
-    fl = "none" if region.poly_mask is None else ",".join("1" if m == 1 else "0" for m in region.poly_mask)
+    fl = "none" if spec.get("mask") is None else ",".join("1" if m == 1 else "0" for m in spec["mask"])   # the mask HANDED to the constructor
     if spec.get("ctor") == "from_origins_nodh":
         # the model infers the spacing like the code does, from the exact values of the decimal strings repr shows for the first
         # two origins (a Python runtime fact used as model input: float(repr(x)) == x, checked here)
         reps = [Decimal(repr(float(org[k, c]))) for k in (0, 1) for c in (0, 1)]
         if any(float(d) != float(org[k, c]) for d, (k, c) in zip(reps, [(0, 0), (0, 1), (1, 0), (1, 1)])):
             raise RuntimeError("float(repr(x)) != x")
-        dharg = "none:" + ",".join(frac(Fraction(d)) for d in reps)
+        dharg = "none:auto"      # round 4: the model computes the values of the two reprs itself (Model/ReprDecimals.lean)
         run.count("build:from_origins-without-dh")
         # direct oracle: the spacing of the region is the spacing of the lattice it was built from
         if float(dh) != float(Decimal(spec["dh"])):
@@ -873,10 +1043,10 @@ def check_build(run, drv, pending, spec, base, region, cells, flags, orc, rng):
     else:
         dharg = frac(dhf)
     line = " ".join(["c01_build", ",".join(frac(v) for v in org[:, 0]), ",".join(frac(v) for v in org[:, 1]), dharg, fl,
-                     str(num_decimals(org[:, 0].min())), str(num_decimals(org[:, 1].min())), str(num_decimals(dh)),
+                     "auto", "auto", "auto",       # round 4: `num_decimals` is computed by the model (ReprDec.numDecimals)
                      "1" if arrays else "0", ",".join(str(k) for k in loc)])
     q = drv.ask(line)
-    pending.append(dict(kind="build", q=q, base=base, n=n, arrays=arrays, loose=loose,
+    pending.append(dict(kind="build", q=q, base=base, n=n, arrays=arrays, loose=loose, dups=len(set(cells)) != len(cells),
                         xs=[Fraction(float(v)) for v in region.xs], ys=[Fraction(float(v)) for v in region.ys],
                         ux=pts4[:, 2, 0].copy(), uy=pts4[:, 2, 1].copy(), mids=mids,
                         hash=[f"{int(a)}:{int(b)}" for a, b in zip(hx, hy)],
@@ -903,12 +1073,16 @@ def flush_build(run, rec, line):
     if hm != rec["hash"]:
         k = next((k for k in range(min(len(hm), len(rec["hash"]))) if hm[k] != rec["hash"][k]), 0)
         run.mismatch(dict(base, polygon=k), f"midpoint of polygon {k} hashed to (idx:idy) {rec['hash'][k]}", hm[k] if k < len(hm) else "-")
-    if rec["arrays"]:
+    if rec.get("dups") and rec["arrays"] and (mask.split(";") != rec["mask"] or imap.split(";") != rec["imap"]):
+        # a lattice position listed several times: which polygon the arrays show there is the implementation's choice (the arrays
+        # were judged by the direct oracle with every listed polygon accepted)
+        run.count("correspondence difference with a property-correct answer (not reported)")
+    elif rec["arrays"]:
         if mask.split(";") != rec["mask"]:
             run.mismatch(dict(base, what="bbox_mask"), str(rec["mask"])[:300], mask[:300])
         if imap.split(";") != rec["imap"]:
             run.mismatch(dict(base, what="idx_map"), str(rec["imap"])[:300], imap[:300])
-    else:
+    elif not rec.get("dups"):
         # large regions: the arrays must be what the loop makes of the model's hash (last writer wins; flag clears the mask)
         h = numpy.array([[int(t) for t in e.split(":")] for e in hm])
         im = numpy.full(rec["idx_map"].shape, numpy.nan)
@@ -1041,12 +1215,36 @@ def flush_area(run, rec, line):
 NICE = ["0.05", "0.1", "0.25", "0.5", "1", "2"]
 
 
+# spacings that are not short decimals (their repr has 16-17 decimals): arc-minute grids, thirds, the noise of a float
+# difference. `cleaner_range` takes its fallback path for them (Model/RegionBuild.lean `cleanerRangeAll`).
+NOISY_DH = [1 / 3, 1 / 6, 1 / 7, 2 / 3, 1 / 30, 1 / 35, 1 / 60, 1 / 70, 0.1 / 3, 0.1 + 0.2, 0.7123456789012345, 0.0712345678901234]
+
+# Input class on which the unchanged code misbehaves (genuine-defect candidate, witness + proposed patch in notes/C01.md):
+# generated on purpose by `observe_displaced_region`, observed and counted, not enforced.
+AWAITING_DECISION_BUILD = [
+    "a region whose spacing is not a short decimal (16+ decimals: 1/30, 1/35, …) and whose smallest origin coordinate x0 has "
+    "10**num_decimals(x0) < 1/dh and is not a multiple of dh: cleaner_range's fallback path rounds x0 to a multiple of dh, the "
+    "edge arrays are displaced by up to dh/2 and the region masks its own origins / midpoints",
+]
+
+
+def _displaced_class(v, dhf):
+    """the awaiting-decision class of `cleaner_range(v, ..., dhf)` (documented rule of calc.py:237-255)"""
+    dec_s, dec_h = num_decimals(v), num_decimals(dhf)
+    return dec_h >= 16 and 10 ** dec_s < 1 / dhf and (Fraction(float(v)) / Fraction(dhf)).denominator != 1
+
+
 def gen_lattice(rng, tier):
-    if rng.random() < 0.6:
+    noisy = rng.random() < 0.12
+    if noisy:
+        dh = Decimal(repr(rng.choice(NOISY_DH)))
+    elif rng.random() < 0.6:
         dh = Decimal(rng.choice(NICE))
     else:
         dh = Decimal(rng.randint(1, 400)).scaleb(-rng.choice([1, 2, 3]))
     kind = rng.choice(["neg", "pos", "zero-edge", "zero-cross", "tiny", "multiple"])
+    if noisy:
+        kind = rng.choice(["multiple", "zero-edge", "neg", "pos", "tiny"])
     shape = rng.choice(["1x1", "1xn", "nx1", "small", "small", "medium", "medium", "2xn"])
     big = 25 if tier == "quick" else 40
     nx, ny = dict([("1x1", (1, 1)), ("1xn", (1, rng.randint(2, 12))), ("nx1", (rng.randint(2, 12), 1)),
@@ -1104,14 +1302,19 @@ def gen_lattice(rng, tier):
     ctor = rng.choice(["from_origins", "polygons"])
     dh_int = rng.random() < 0.5
     origins = "float" if rng.random() < 0.2 else "decimal"
-    if mask is None and origins == "decimal" and rng.random() < 0.3:
+    if mask is None and origins == "decimal" and rng.random() < 0.45:
         # from_origins WITHOUT dh: the code infers the spacing from the first two origins, which it assumes to be adjacent
         # cells (D30) — move an adjacent pair of distinct cells to the front, if there is one
         cs = set(cells)
         pairs = [(c, (c[0] + a, c[1] + b)) for c in cells for a, b in ((1, 0), (0, 1), (-1, 0), (0, -1), (1, 1), (-1, 1), (1, -1), (-1, -1))
                  if (c[0] + a, c[1] + b) in cs]
         if pairs:
-            c0, c1 = rng.choice(pairs)
+            # the first two origins decide the inferred spacing: a longitude pair, a latitude pair or a diagonal one, each with its
+            # own share (a spacing read off ONE coordinate only must be caught in either direction)
+            want = rng.choice(["lon", "lat", "diag"])
+            sel = [pr for pr in pairs if (want == "lon" and pr[0][1] == pr[1][1]) or (want == "lat" and pr[0][0] == pr[1][0]) or
+                   (want == "diag" and pr[0][0] != pr[1][0] and pr[0][1] != pr[1][1])]
+            c0, c1 = rng.choice(sel or pairs)
             rest = list(cells)
             rest.remove(c0)
             rest.remove(c1)
@@ -1119,9 +1322,22 @@ def gen_lattice(rng, tier):
             ctor = "from_origins_nodh"
     kwargs = rng.random() < 0.25
     vtol = rng.choice(["0", "1e-10", "1e-13"]) if (ctor == "polygons" or mask is not None) and rng.random() < 0.3 else None
-    return dict(kind="lattice", ax=str(ax), ay=str(ay), dh=str(dh), cells=[list(c) for c in cells], mask=mask,
+    spec = dict(kind="lattice", ax=str(ax), ay=str(ay), dh=str(dh), cells=[list(c) for c in cells], mask=mask,
                 ctor=ctor, dh_int=dh_int, origins=origins, kwargs=kwargs, vtol=vtol,
-                meta=f"{kind}/{shape}/{hole}/{order}")
+                meta=f"{kind}/{shape}/{hole}/{order}" + ("/noisy-dh" if noisy else ""))
+    if noisy:
+        spec["noisy"] = True       # edges are the lattice to rounding only (fallback path of cleaner_range): loose comparison
+        # keep out of the awaiting-decision class (a coarse anchor that is not a multiple of a fine noisy step): anchor the
+        # lattice at a multiple of the step instead
+        org = numpy.array(lattice_origins(_spec_cells_tuple(spec)), dtype=float)
+        dhf = float(dh)
+        if _displaced_class(org[:, 0].min(), dhf):
+            spec["ax"] = str(dh * rng.randint(-300, 300))
+        if _displaced_class(org[:, 1].min(), dhf):
+            spec["ay"] = str(dh * rng.randint(-300, 300))
+        if spec["ctor"] == "from_origins_nodh":
+            spec["ctor"] = "from_origins"      # the spacing cannot be read off two reprs that carry 17 digits of noise
+    return spec
 
 
 def _spec_cells_tuple(spec):
@@ -1139,10 +1355,95 @@ def run_corpus(run, drv, pending):
         run.count("corpus")
 
 
+def observe_displaced_region(run, rng):
+    """the awaiting-decision class `AWAITING_DECISION_BUILD[0]`: counted with a witness, not enforced"""
+    from csep.core.regions import CartesianGrid2D
+    dhf = rng.choice([1 / 30, 1 / 35, 1 / 60, 1 / 70, 0.0712345678901234])
+    for _ in range(20):
+        ax, ay = round(rng.uniform(-20, 20), 1), round(rng.uniform(-20, 20), 1)
+        if _displaced_class(ax, dhf) and _displaced_class(ay, dhf):
+            break
+    else:
+        return
+    o = numpy.array([[ax + i * dhf, ay + j * dhf] for i in range(4) for j in range(3)])
+    try:
+        r = CartesianGrid2D.from_origins(o, dh=dhf)
+        m = numpy.asarray(r.get_masked(o[:, 0] + dhf / 2, o[:, 1] + dhf / 2)).astype(bool)
+        own = numpy.asarray(r.get_masked(o[:, 0], o[:, 1])).astype(bool)
+        nbad = int(m.sum()) + int(own.sum()) + (0 if len(r.xs) == 4 and len(r.ys) == 3 else 1) + \
+            int(abs(float(r.xs[0]) - ax) > 1e-9 * max(1.0, abs(ax))) + int(abs(float(r.ys[0]) - ay) > 1e-9 * max(1.0, abs(ay)))
+    except Exception as e:
+        nbad, m = 1, type(e).__name__
+    run.evaluations += 1
+    if nbad:
+        run.count("awaiting-decision: region with a noisy spacing and a coarse anchor is displaced (masks its own midpoints)")
+        run.extra.setdefault("awaiting_decision_witness_build",
+                             f"from_origins(anchor ({ax!r}, {ay!r}) + (i, j)*dh, 4 x 3 cells, dh={dhf!r}): xs[0]={float(r.xs[0])!r}, "
+                             f"ys[0]={float(r.ys[0])!r}, {int(numpy.sum(m))} of 12 own midpoints and {int(numpy.sum(own))} of 12 own origins masked")
+    else:
+        run.count("noisy spacing with a coarse anchor: not displaced")
+
+
+def check_global(run, dh, build):
+    """`global_region(dh)` (regions.py:269-289): the longitudes / latitudes it takes the product of and the edge arrays of the
+    region, against `c01_global` (Model/ReprDecimals.lean `globalOrigins`, theorem `global_region_construction` for dh = 0.1).
+    The implementation side is the two `cleaner_range` calls of regions.py:283-284 and, for dh >= 0.5, the region itself (built when `build`)."""
+    from csep.utils.calc import cleaner_range
+    from csep.core import regions
+    lons = cleaner_range(-180.0, 180.0, dh)[:-1]
+    lats = cleaner_range(-90, 90.0, dh)[:-1]
+    xs = cleaner_range(float(lons.min()), float(lons.max()), dh)
+    ys = cleaner_range(float(lats.min()), float(lats.max()), dh)
+    case = dict(region=dict(kind="shipped", name="global1"), points=[], what="global", dh=repr(dh))
+    if build:
+        r = regions.global_region(dh=dh)
+        org = numpy.asarray(r.origins(), dtype=float)
+        okr = numpy.array_equal(r.xs, xs) and numpy.array_equal(r.ys, ys) and len(org) == len(lons) * len(lats) and \
+            numpy.array_equal(numpy.unique(org[:, 0]), lons) and numpy.array_equal(numpy.unique(org[:, 1]), lats) and \
+            numpy.array_equal(org[: len(lats), 1], lats) and numpy.all(org[: len(lats), 0] == lons[0])
+        if not okr:
+            run.oracle_failure(case, f"global_region(dh={dh!r}): origins / edge arrays are not the product of "
+                                     f"cleaner_range(-180, 180, dh)[:-1] and cleaner_range(-90, 90, dh)[:-1]")
+    # direct oracle: the nearest doubles of the decimal grid
+    D = Fraction(Decimal(repr(dh)))
+    nx, ny = Fraction(360) / D, Fraction(180) / D
+    if nx.denominator == 1 and ny.denominator == 1:
+        ex = [float(Fraction(-180) + k * D) for k in range(int(nx))]
+        ey = [float(Fraction(-90) + k * D) for k in range(int(ny))]
+        if list(map(float, lons)) != ex or list(map(float, lats)) != ey or list(map(float, xs)) != ex or list(map(float, ys)) != ey:
+            run.oracle_failure(case, f"global_region(dh={dh!r}): longitudes / latitudes are not the nearest doubles of -180 + k*dh, -90 + k*dh")
+    d = Driver()
+    d.ask(f"c01_global {frac(float(dh))}")
+    res = d.run()[0].split(" ")
+    run.evaluations += 1
+    run.count("global_region-coordinates")
+    F = lambda s: [] if s == "-" else [Fraction(v) for v in s.split(",")]
+    got = [[Fraction(float(v)) for v in a] for a in (lons, lats, xs, ys)]
+    if len(res) != 4 or [F(t) for t in res] != got:
+        run.mismatch(case, f"{len(lons)} x {len(lats)} coordinates, {len(xs)} x {len(ys)} edges",
+                     "c01_global differs: " + " ".join(t[:60] for t in res))
+
+
 def run(run, rng, tier):
     drv, pending = Driver(), []
     run_corpus(run, drv, pending)
-    nlat = 110 if tier == "quick" else 1600
+    # (the region itself is built for coarse spacings only: 16 200 cells at dh = 2; global(1) is a shipped region of every run)
+    for dh in ([0.1, 1.0, rng.choice([0.5, 0.25, 0.2]), rng.choice([2.0, 5.0, 4.0])] if tier == "quick" else [0.1, 0.2, 0.25, 0.5, 1.0, 2.0, 4.0, 5.0]):
+        try:
+            check_global(run, dh, build=dh >= (2.0 if tier == "quick" else 1.0))
+        except (RuntimeError, KeyboardInterrupt, MemoryError):
+            raise
+        except Exception as e:
+            import traceback
+            from .core import REPO
+            fr = traceback.extract_tb(e.__traceback__)
+            if fr and os.path.realpath(fr[-1].filename).startswith(os.path.realpath(REPO) + os.sep):
+                raise
+            run.oracle_failure(dict(region=dict(kind="shipped", name="global1"), points=[], what="global", dh=repr(dh)),
+                               f"global_region(dh={dh!r}): a returned value could not be used ({type(e).__name__}: {str(e)[:160]})")
+    for _ in range(3 if tier == "quick" else 20):
+        observe_displaced_region(run, rng)
+    nlat = 100 if tier == "quick" else 1150
     run.extra["_big_quota"] = 2 if tier == "quick" else 25
     budget = 1400 if tier == "quick" else 2500
     for n in range(nlat):
@@ -1204,7 +1505,7 @@ def replay(run, payload):
     if str(case.get("what", "")).startswith("ops:"):
         # a derived-region / catalog-session case: the region with freshly generated points, the operation re-drawn from its seed
         only = dict(masked_region=["masked"], filter_spatial=["filter"], increase_grid_resolution=["incres"],
-                    grid_spacing=["incres"], shared_session=["shared"], nonfinite=["nonfinite"], big_catalog=["big"]).get(case["what"][4:], ["eq"])
+                    grid_spacing=["incres"], shared_session=["shared"], aftershock_region=["aftershock"], nonfinite=["nonfinite"], big_catalog=["big"]).get(case["what"][4:], ["eq"])
         check_region(run, drv, pending, spec, pts=None, rng=__import__("random").Random(case.get("ops_seed", 0)), arrays=arrays,
                      tag="replay", build=False, ops_seed=case.get("ops_seed", 0), ops_only=only)
     else:
